@@ -115,6 +115,10 @@ def cond_slice(F, c, through_calls=False):
         s.sources.add(("call", c.callee))
         for a in c.call["args"]:
             s.operand(a)
+        # the tested value IS the call's result: the local it is stored in belongs to the slice
+        d = c.call.get("dest") if isinstance(c.call, dict) else None
+        if isinstance(d, dict) and "l" in d and not d.get("pj"):
+            s.seen.add(d["l"])
     else:
         t = body.term(c.edge["src"])
         s.operand(t["d"])
@@ -446,3 +450,58 @@ def tail_truncations_without_next_id(F, depth=6):
                 if wit is not None:
                     bad.append((fn, b, bi, wit))
     return bad, n
+
+
+def loop_early_exits(F, body, inner_block, next_rx=r"Iterator::next$|iter::traits::iterator::Iterator::next$"):
+    """The iterator loop of `body` that contains `inner_block`: header = the innermost `Iterator::next` call block that
+    dominates inner_block and is reachable from it again.  Returns (header, [(src, dst)]) - the edges that leave the loop
+    other than the `None` edge of the test of next()'s result (iterator exhausted): `break`, `return`, `?` inside the
+    loop body.  (None, []) when inner_block is in no such loop."""
+    heads = [bi for (bi, _t) in calls_matching(body, next_rx) if body.dominates(bi, inner_block) and bi != inner_block]
+    best = None
+    for h in heads:
+        seen, _p = body.reach_from(inner_block)
+        if h in seen and (best is None or body.dominates(best, h)):
+            best = h
+    if best is None:
+        return None, []
+    h = best
+    n = len(body.blocks)
+    preds = {}
+    for x in range(n):
+        if body.blocks[x].get("cleanup"):
+            continue
+        for y in body.succ(x):
+            preds.setdefault(y, []).append(x)
+    # natural loop: the nearest dominator H of the next() block that is the target of a back edge
+    chain = [d for d in range(n) if body.dominates(d, h)]
+    doms = list(chain)
+    chain = sorted(doms, key=lambda d: -sum(1 for e in doms if body.dominates(e, d)))     # nearest dominator first
+    H, loop = None, set()
+    for d in chain:
+        backs = [p for p in preds.get(d, []) if body.dominates(d, p)]
+        if backs:
+            H = d
+            loop = {H}
+            work = list(backs)
+            while work:
+                x = work.pop()
+                if x in loop:
+                    continue
+                loop.add(x)
+                work.extend(preds.get(x, []))
+            break
+    if H is None or h not in loop:
+        return None, []
+    conds = edge_conditions(body)
+    exits = []
+    for x in sorted(loop):
+        for y in body.succ(x):
+            if y in loop or body.blocks[y].get("cleanup") or body.blocks[y]["t"]["k"] == "unreachable":
+                continue
+            e = body.edge(x, y)
+            c = conds.get(e["id"]) if e else None
+            if c is not None and c.kind == "discr" and c.variants == {"None"} and cond_slice(F, c).has_call(next_rx):
+                continue      # iterator exhausted: the regular exit
+            exits.append((x, y))
+    return h, exits
